@@ -102,6 +102,20 @@ def r1_threading(cx):
                 if qn in g.reachable(s0, avoid=[pn]):
                     okp = False
         chk(cx, okp, par[0]["node"], "the parser runs only when the predicate failed", "the parser call is not reachable from a successful predicate call (CFG, normal edges)")
+        # ... and only then: inside the try that guards the predicate nothing else can take the 'failed' exit (no explicit raise, no other call before it),
+        # so that the predicate is really tried at every position
+        tr_ = enclosing(pred[0]["node"], ast.Try)
+        okq = tr_ is not None
+        if okq:
+            before = []
+            for st_ in tr_.body:
+                if any(x_ is pred[0]["node"] for x_ in ast.walk(st_)):
+                    break
+                before.append(st_)
+            okq = not [x_ for st_ in tr_.body for x_ in ast.walk(st_) if isinstance(x_, ast.Raise)] and not [x_ for st_ in before for x_ in ast.walk(st_) if isinstance(x_, (ast.Call, ast.Subscript))] \
+                and not guard_texts(pred[0]["node"], stop=tr_)
+        chk(cx, okq, tr_ if tr_ is not None else fn, "the predicate is tried at every position: nothing else inside its try can signal 'not yet' (no explicit raise, no fallible statement before the call)",
+            "try body of the predicate call")
         rets = f.returns
         chk(cx, len(rets) == 1 and rets[0]["pos"] <= set(["P0", pk]), rets[0]["node"] if rets else fn, "Until returns the position reached by the parser (the predicate consumes nothing)", "return position origins %s" % (_fmt(rets[0]["pos"]) if rets else "?"))
 
